@@ -52,7 +52,7 @@ def _pos(sy, *names):
 # ----------------------------------------------------------------------------------
 # TA: continuous state + continuous choice + constraint + auxiliary function with parameter
 # ----------------------------------------------------------------------------------
-def TA(T=2, nw=5, nc=3, sym_k=False, sym_g=False, beta_sym=True, lower=False):
+def TA(T=2, nw=5, nc=3, sym_k=False, sym_g=False, beta_sym=True, lower=False, int_init=False):
     from lcm import Model
 
     def utility(c, w, inc, tc, tw, ti):
@@ -101,9 +101,11 @@ def TA(T=2, nw=5, nc=3, sym_k=False, sym_g=False, beta_sym=True, lower=False):
         return out
 
     def init(mk, n):
+        if int_init:
+            return {"w": mk.int("w0", (n,))}  # a continuous state supplied as an INTEGER array
         return {"w": mk.real("w0", (n,))}
 
-    return Tmpl(f"TA[T={T},nw={nw},nc={nc},k={'sym' if sym_k else 0},g={'sym' if sym_g else '1/2'},lower={lower}]", model, params, assume, init)
+    return Tmpl(f"TA[T={T},nw={nw},nc={nc},k={'sym' if sym_k else 0},g={'sym' if sym_g else '1/2'},lower={lower},int_init={int_init}]", model, params, assume, init)
 
 
 # ----------------------------------------------------------------------------------
@@ -326,17 +328,26 @@ def TF(T=3):
 # ----------------------------------------------------------------------------------
 # TG: two continuous states, two continuous choices
 # ----------------------------------------------------------------------------------
-def TG(T=2):
+def TG(T=2, up=False):
     from lcm import Model
 
     def utility(c, x, w, v, tc, tx, tw, tv):
         return tc * c + tx * x + tw * w + tv * v
 
-    def next_w(w, c):
-        return w - c * 0.5 + 0.25
+    if up:
+        # next states leave BOTH grids at the top (linear continuation of the outermost cell)
+        def next_w(w, c):
+            return w + c * 0.5
 
-    def next_v(v, x, w):
-        return v * 0.5 + x * 0.5 + w * 0.125
+        def next_v(v, x, w):
+            return v + x * 0.5 + w * 0.25
+    else:
+
+        def next_w(w, c):
+            return w - c * 0.5 + 0.25
+
+        def next_v(v, x, w):
+            return v * 0.5 + x * 0.5 + w * 0.125
 
     def cx_constraint(c, x, w, v):
         return c + x <= w + v
@@ -360,7 +371,7 @@ def TG(T=2):
     def init(mk, n):
         return {"w": mk.real("w0", (n,)), "v": mk.real("v0", (n,))}
 
-    return Tmpl(f"TG[T={T}]", model, params, lambda sy: [], init)
+    return Tmpl(f"TG[T={T},up={up}]", model, params, lambda sy: [], init)
 
 
 # ----------------------------------------------------------------------------------
@@ -749,3 +760,44 @@ def TP(T=2, excluded_first=True):
 
 
 REGISTRY["TP"] = TP
+
+
+# ----------------------------------------------------------------------------------
+# TQ: a 3-valued filter-restricted choice; the number of admissible choices differs between states
+# (health 0: three, health 1: one), so the rows of the state x choice product are unevenly distributed
+# ----------------------------------------------------------------------------------
+def TQ(T=2):
+    import jax.numpy as jnp
+    from lcm import Model
+
+    def utility(health, hours, w, U, tw):
+        return U[health, hours] + tw * w
+
+    def next_health(health, hours):
+        return jnp.where(hours == 2, 1, health)
+
+    def next_w(w, hours):
+        return w * 0.5 + hours * 0.25
+
+    def h_filter(health, hours):
+        return jnp.logical_or(health == 0, hours == 0)
+
+    model = Model(
+        n_periods=T,
+        functions=dict(utility=utility, next_health=next_health, next_w=next_w, h_filter=h_filter),
+        choices=dict(hours=dg(3)),
+        states=dict(health=dg(2), w=lin(0, 2, 3)),
+    )
+
+    def params(mk):
+        return {"beta": mk.real("beta"), "utility": {"U": mk.real("U", (2, 3)), "tw": mk.real("tw")}, "next_health": {}, "next_w": {}, "h_filter": {}}
+
+    def init(mk, n):
+        import jax.numpy as jnp
+
+        return {"health": jnp.array([0, 1, 1, 0][:n]), "w": mk.real("w0", (n,))}
+
+    return Tmpl(f"TQ[T={T}]", model, params, lambda sy: [], init)
+
+
+REGISTRY["TQ"] = TQ
